@@ -216,7 +216,13 @@ fn strategy(lo: usize, hi: usize) -> BoxedStrategy<Case> {
                 let cfg_is_bb = cfg.kind == Kind::Bb;
                 (Just(cfg), prop_oneof![12 => multi_stream(dom, lo, (4 * n + 40).max(lo).min(hi)), 1 => stream(if cfg_is_bb { Domain::TinyAnySign } else if pos { Domain::Huge } else { Domain::HugeScalar }, lo, (4 * n + 40).max(lo).min(hi)), 1 => stream(if pos { Domain::TinyNormal } else { Domain::TinyAnySign }, lo, (4 * n + 40).max(lo).min(hi))])
             })
-            .prop_map(|(cfg, s)| Case { cfg, scalar: true, xs: xs(&s.vals), bars: vec![] }),
+            .prop_map(|(cfg, s)| {
+                // PercentagePriceOscillator on a series that is negative throughout (a spread, a yield below zero): the
+                // documented quotient divides by the slow average itself, sign included; every fourth PPO stream is mirrored
+                let mirror = cfg.kind == Kind::Ppo && s.vals.first().map(|v| (v.to_bits() >> 5) % 4 == 0).unwrap_or(false);
+                let vals: Vec<f64> = if mirror { s.vals.iter().map(|v| -v).collect() } else { s.vals };
+                Case { cfg, scalar: true, xs: xs(&vals), bars: vec![] }
+            }),
         cfg_among(&BK, 512, multiplier_any)
             .prop_flat_map(move |cfg| {
                 let n = cfg.n();
